@@ -92,6 +92,9 @@ func (w *World) runOracles(pre *Snapshot, op Op, res *StepResult, post *Snapshot
 	if on("C05") {
 		w.oracleC05(pre, op, post, decision, binds)
 	}
+	if on("C13") {
+		w.oracleC13(pre, op, res, post)
+	}
 }
 
 // ---------------------------------------------------------------------------------------------- C01
